@@ -128,7 +128,16 @@ func (s *Service) proxyToSingleEndpoint(ctx context.Context, w http.ResponseWrit
 	stats.FirstDataMs = time.Since(stats.StartTime).Milliseconds()
 
 	buffer := s.bufferPool.Get()
-	defer s.bufferPool.Put(buffer)
+	// Every read runs in its own goroutine; when a read is given up on (read timeout, cancellation)
+	// that goroutine is still blocked in Read on this buffer and may complete into it later - until
+	// the response body is closed, which happens after this deferred call. Such a buffer must not go
+	// back to the pool, or the next request that draws it can forward this backend's late bytes.
+	recycleBuffer := true
+	defer func() {
+		if recycleBuffer {
+			s.bufferPool.Put(buffer)
+		}
+	}()
 
 	// Separate client and upstream contexts for proper cancellation handling
 	upstreamCtx := ctx
@@ -139,6 +148,9 @@ func (s *Service) proxyToSingleEndpoint(ctx context.Context, w http.ResponseWrit
 	// Stream with timeout protection - don't let slow clients hang forever
 	// Use r.Context() for client context and upstreamCtx for upstream context
 	bytesWritten, lastChunk, streamErr := s.streamResponseWithTimeout(r.Context(), upstreamCtx, w, resp, *buffer, rlog)
+	if streamErr != nil || r.Context().Err() != nil || upstreamCtx.Err() != nil {
+		recycleBuffer = false
+	}
 	stats.StreamingMs = time.Since(streamStart).Milliseconds()
 	stats.TotalBytes = bytesWritten
 
